@@ -166,6 +166,8 @@ def main():
 
     if build_ok:
         try:
+            import corpus
+            corpus.run_schc(rep, pid)
             mod.run(rep, tier, seed)
         except Exception:  # noqa: BLE001 -- a crash of the machinery is reported, never silently passed
             rep.violation('harness', 'harness error: ' + core.fmt_exc()[-800:], {'layer': 'harness', 'traceback': core.fmt_exc()})
